@@ -1,6 +1,6 @@
 (* C06 - The lower bound never exceeds the optimum (lb_sound); optimum reachability: see below. *)
-From Coq Require Import List ZArith Bool.
-From JSL Require Import Classic.Jssp Classic.Packing Classic.LowerBound Classic.Sequential.
+From Coq Require Import List ZArith Bool Lia.
+From JSL Require Import Classic.Jssp Classic.Packing Classic.LowerBound Classic.Sequential Base.Res SM.Types SM.Util SM.Handler SM.Step SM.Middleware SM.Inv SM.ExampleShift SMP.Clock SMP.StepInv SMP.LiftSide SMP.OutputDone SMP.Reflect SMP.LiftProv SMP.ProvBatch SMP.Durations SMP.EndToEnd.
 Import ListNotations.
 Open Scope Z_scope.
 
@@ -29,3 +29,40 @@ Print Assumptions C06_feasible_schedule_exists.
 
 Example C06_lb_example : lower_bound [[(0%nat, 3); (1%nat, 2)]; [(1%nat, 2); (0%nat, 4)]] = Some 7.
 Proof. vm_compute. reflexivity. Qed.
+
+(* End to end (SMP/EndToEnd.v): the lower bound is below EVERY terminated run of the environment. For an instance whose
+   job table is a classic instance I (every job visits every machine once, deterministic durations) and whose machine
+   post-buffers are unordered (every classic instance the compiler produces), for EVERY run of the middleware - any
+   action sequence, oracle, fuel, truncation setting, with AGVs, setup times and outages if configured - that ends
+   with all work delivered: Taillard's bound of I is at most every upper bound C of the recorded completion times, in
+   particular the reported makespan (C04_makespan_is_clock: the clock set to the latest completion). The proof shows
+   that the operation records of the finished state form a feasible schedule of I: starts non-negative (no operation
+   starts before the initial clock), job precedence and machine exclusivity with the CONFIGURED durations (C01's
+   invariant with C02's: every record lasts at least its configured duration), all operations done (C04). Hence the
+   optimum over all agent behaviours cannot be below the bound, and the terminal reward never exceeds its maximum. *)
+Theorem C06_lower_bound_below_every_terminated_run_flex :
+  forall (sigma : oracle) (i : inst) (fuel : nat) (x0 : state) (joker0 : Z) (ta : bool) (r : result) (m : mw)
+         (I : cinst) (lb C : Z),
+    inst_nonneg_b i = true -> flex_post_b i = true ->
+    clock_b x0 = true -> wfs_b i x0 = true -> fresh2_b i x0 = true -> nodep_b x0 = true -> (0 <= s_now x0)%Z ->
+    cinst_rel i I -> classic I -> (0 < nmach I)%nat -> lower_bound I = Some lb ->
+    reach sigma i fuel x0 joker0 ta r m -> all_in_output i (r_x r) = true ->
+    (forall jb o e, In jb (s_jobs (r_x r)) -> In o (j_ops jb) -> o_end o = Time e -> (e <= C)%Z) ->
+    (lb <= C)%Z.
+Proof. intros sigma i fuel x0 joker0 ta r m I lb C Hnn Hf. apply terminated_run_lower_bound; auto. Qed.
+Print Assumptions C06_lower_bound_below_every_terminated_run_flex.
+
+(* non-vacuity: a compiled instance (AGV, outages) is related to a classic instance, satisfies the hypotheses, and its
+   always-accept episode is a terminated run *)
+Definition sh_classic : cinst := [[(1%nat, 1%Z); (0%nat, 0%Z)]; [(1%nat, 1%Z); (0%nat, 4%Z)]].
+Example C06_end_to_end_hypotheses :
+  cinst_rel sh_inst sh_classic /\ classic sh_classic /\ (0 < nmach sh_classic)%nat /\ lower_bound sh_classic = Some 5%Z
+  /\ exists r m, reach sh_sigma sh_inst 200 sh_init0 3%Z true r m /\ all_in_output sh_inst (r_x r) = true.
+Proof.
+  split; [repeat constructor|]. split.
+  - split; [discriminate|]. intros ops [<-|[<-|[]]]; (split; [reflexivity|]); (split; [repeat constructor; simpl; intuition discriminate|]);
+      intros o [<-|[<-|[]]]; simpl; split; lia.
+  - split; [simpl; lia|]. split; [vm_compute; reflexivity|].
+    destruct (runG sh_sigma sh_inst side2 200 sh_init0 3%Z true [1;1;1;1;1]%Z) as [[r m]|] eqn:E; [|vm_compute in E; discriminate].
+    exists r, m. split; [eapply reachG_reach; eapply runG_reach; exact E|]. vm_compute in E. inversion E; subst. vm_compute. reflexivity.
+Qed.
